@@ -268,3 +268,184 @@ cvp_harness!(c16_cvp_n3_k3, 3, 3, 6);
 cvp_harness!(c16_cvp_n4_k2, 4, 2, 7);
 cvp_harness!(c16_cvp_n4_k3, 4, 3, 7);
 cvp_harness!(c16_cvp_n4_k4, 4, 4, 7);
+
+// ---------------------------------------------------------------------------------------------------------------
+// cross_val_predict with a spy SPLITTER that answers differently on every call (models shuffle = true)
+// ---------------------------------------------------------------------------------------------------------------
+// KFold with shuffle = true draws a fresh unseeded permutation on every split() call; that cannot be executed under
+// Kani (thread_rng), but it can be modelled: a harness-defined BaseKFold whose split() draws, on EVERY call, a fresh
+// symbolic permutation of 0..n and cuts it into k blocks of size n/k or n/k+1 (test = block, train = the rest).
+// cross_val_predict must therefore take the training rows and the held-out rows of a fold from ONE AND THE SAME
+// split() answer; code that fits on one answer and predicts on another lets a model predict rows it has seen.
+// Obligations are those of cvp_harness!, stated relative to what the models actually saw (spy log), plus: the folds
+// used are the folds of a single answer of the splitter.
+struct SpySplitter<'a, const N: usize, const K: usize> {
+    calls: &'a core::cell::Cell<usize>,
+    first: &'a RefCell<[usize; N]>, // the permutation answered on the first call
+}
+
+impl<'a, const N: usize, const K: usize> BaseKFold for SpySplitter<'a, N, K> {
+    type Output = std::vec::IntoIter<(Vec<usize>, Vec<usize>)>;
+
+    fn n_splits(&self) -> usize {
+        K
+    }
+
+    fn split<T: RealNumber, M: Matrix<T>>(&self, _x: &M) -> Self::Output {
+        let c = self.calls.get();
+        self.calls.set(c + 1);
+        // a fresh permutation per call (assumptions only constrain the value to "is a permutation of 0..N")
+        let perm: [usize; N] = kani::any();
+        let mut i = 0;
+        while i < N {
+            kani::assume(perm[i] < N);
+            let mut j = 0;
+            while j < i {
+                kani::assume(perm[j] != perm[i]);
+                j += 1;
+            }
+            i += 1;
+        }
+        if c == 0 {
+            *self.first.borrow_mut() = perm;
+        }
+        let mut folds: Vec<(Vec<usize>, Vec<usize>)> = Vec::with_capacity(K);
+        let mut start = 0usize;
+        let mut f = 0;
+        while f < K {
+            let size = N / K + if f < N % K { 1 } else { 0 };
+            let mut test: Vec<usize> = Vec::with_capacity(size);
+            let mut train: Vec<usize> = Vec::with_capacity(N - size);
+            let mut i = 0;
+            while i < N {
+                if i >= start && i < start + size {
+                    test.push(perm[i]);
+                } else {
+                    train.push(perm[i]);
+                }
+                i += 1;
+            }
+            folds.push((train, test));
+            start += size;
+            f += 1;
+        }
+        folds.into_iter()
+    }
+}
+
+macro_rules! cvp_spy_splitter_harness {
+    ($name:ident, $n:expr, $k:expr, $unw:expr) => {
+        #[kani::proof]
+        #[kani::unwind($unw)]
+        fn $name() {
+            const N: usize = $n;
+            const K: usize = $k;
+            const FULL: usize = (1usize << N) - 1;
+            let py: [f64; N] = kani::any();
+            let mut x: DenseMatrix<f64> = DenseMatrix::zeros(N, 1);
+            let mut y: Vec<f64> = Vec::with_capacity(N);
+            let mut i = 0;
+            while i < N {
+                x.set(i, 0, i as f64);
+                y.push(py[i]);
+                i += 1;
+            }
+            let log = RefCell::new(SpyLog {
+                n_fits: 0,
+                train_mask: [0; SPY_MAX_FITS],
+                train_rows: [0; SPY_MAX_FITS],
+                pred_mask: [0; SPY_MAX_FITS],
+                pred_rows: [0; SPY_MAX_FITS],
+                pred_calls: [0; SPY_MAX_FITS],
+            });
+            let fit = |tx: &DenseMatrix<f64>, ty: &Vec<f64>, _p: ()| -> Result<SpyModel, Failed> {
+                let (m, _) = tx.shape();
+                assert!(ty.len() == m, "cross_val_predict: fit receives one target per training row");
+                let mut mask = 0usize;
+                let mut r = 0;
+                while r < m {
+                    let id = tx.get(r, 0) as usize;
+                    mask |= 1usize << id;
+                    assert!(
+                        ty[r].to_bits() == py[id].to_bits(),
+                        "cross_val_predict: each training target is the target of its own row"
+                    );
+                    r += 1;
+                }
+                let mut l = log.borrow_mut();
+                let t = l.n_fits;
+                assert!(t < K, "cross_val_predict: at most one model is fitted per fold");
+                l.train_mask[t] = mask;
+                l.train_rows[t] = m;
+                l.n_fits = t + 1;
+                Ok(SpyModel { tag: t, log: &log })
+            };
+            let calls = core::cell::Cell::new(0usize);
+            let first_perm: RefCell<[usize; N]> = RefCell::new([0; N]);
+            let cv: SpySplitter<N, K> = SpySplitter {
+                calls: &calls,
+                first: &first_perm,
+            };
+            let res = cross_val_predict(fit, &x, &y, (), cv);
+            assert!(res.is_ok(), "cross_val_predict: succeeds when every fit and predict succeeds");
+            let y_hat = match res {
+                Ok(v) => v,
+                Err(_) => return,
+            };
+            assert!(y_hat.len() == N, "cross_val_predict: one prediction per sample");
+            let l = log.borrow();
+            assert!(l.n_fits == K, "cross_val_predict: exactly one model is fitted per fold");
+            // per sample: provenance and placement
+            let mut idx = 0;
+            while idx < N {
+                let code = y_hat[idx] as usize;
+                assert!(code >= 16, "cross_val_predict: every position receives a prediction from some fold's model");
+                let tag = code / 16 - 1;
+                let id = code % 16;
+                assert!(tag < K, "cross_val_predict: every position receives a prediction from some fold's model");
+                assert!(
+                    id == idx,
+                    "cross_val_predict: every held-out prediction is placed at the sample's original position"
+                );
+                assert!(
+                    l.pred_mask[tag] & (1usize << idx) != 0,
+                    "cross_val_predict: position idx was produced by the model of the fold whose test set contains idx"
+                );
+                assert!(
+                    l.train_mask[tag] & (1usize << idx) == 0,
+                    "cross_val_predict: no sample is predicted by a model that has seen it (train and held-out rows of a fold must come from the same split() answer)"
+                );
+                idx += 1;
+            }
+            // per fold: model t was fitted on exactly the training rows of fold t of ONE answer of the splitter and
+            // predicts exactly that fold's held-out rows
+            assert!(calls.get() >= 1, "cross_val_predict: the folds come from the splitter");
+            let first = first_perm.borrow();
+            let mut start = 0usize;
+            let mut t = 0;
+            while t < K {
+                let size = N / K + if t < N % K { 1 } else { 0 };
+                let mut block = 0usize;
+                let mut i = start;
+                while i < start + size {
+                    block |= 1usize << first[i];
+                    i += 1;
+                }
+                assert!(
+                    l.train_mask[t] == FULL & !block && l.train_rows[t] == N - size,
+                    "cross_val_predict: the model of fold t is fitted on exactly fold t's training rows (the complement of its held-out rows)"
+                );
+                assert!(
+                    l.pred_calls[t] == 1 && l.pred_mask[t] == block && l.pred_rows[t] == size,
+                    "cross_val_predict: the model of fold t predicts exactly the held-out rows of fold t, once"
+                );
+                start += size;
+                t += 1;
+            }
+            kani::cover!(l.n_fits == K && y_hat.len() == N && first[0] != 0);
+        }
+    };
+}
+
+cvp_spy_splitter_harness!(c16_cvp_spy_splitter_n3, 3, 2, 6);
+cvp_spy_splitter_harness!(c16_cvp_spy_splitter_n4, 4, 2, 7);
